@@ -98,7 +98,10 @@ UFILTERS = {
 
 # (route text, user filters needed, sample paths)
 STATIC = ["/", "/a", "/a/b", "/A", "/a/", "/é", "/b-c", "/a/b/c", "/x1",
-          "/ž/é", "/i/10", "/debug-info", "/f.txt", "/d"]
+          "/ž/é", "/i/10", "/debug-info", "/f.txt", "/d",
+          # the same letter precomposed and as base + combining mark: two
+          # different paths
+          "/kav\u00e1rna", "/cafe\u0301"]
 GROUP = [
     ("/a/<n>", [], ["/a/b", "/a/é", "/a/10"]),
     ("/<n>", [], ["/a", "/ž"]),
@@ -106,7 +109,7 @@ GROUP = [
     ("/a/<n:int>", [], ["/a/10"]),
     ("/f/<x:float>", [], ["/f/1.5", "/f/-5", "/f/0.1", "/f/10.25"]),
     ("/f/<x:float>/<y:int>", [], ["/f/1.5/3", "/f/2/-4"]),
-    ("/w/<w:word>", [], ["/w/ab", "/w/é_1", "/w/ž"]),
+    ("/w/<w:word>", [], ["/w/ab", "/w/é_1", "/w/ž", "/w/e\u0301"]),
     ("/h/<h:hex>", [], ["/h/0Af", "/h/ff"]),
     ("/u/<u:uuid>", [], ["/u/" + UUID1, "/u/" + UUID2]),
     ("/r/<v:re:[A-Z]+>", [], ["/r/ABC", "/r/A"]),
@@ -184,7 +187,9 @@ RAW = [
 ]
 SEGS = ["a", "b", "ab", "A", "x1", "b-c", "é", "ž", "É", "10", "-5", "1.5",
         "abc", "ABC", "Ab", "ff", "0Af", "_u", "c", "d", "f.txt", "None",
-        "٣", UUID1, "xx", "i", "f", "r", "w", "u", "raw", "debug-info"]
+        "٣", UUID1, "xx", "i", "f", "r", "w", "u", "raw", "debug-info",
+        "kav\u00e1rna", "kava\u0301rna", "caf\u00e9", "cafe\u0301",
+        "e\u0301"]
 MASKS = [3, 3, 3, 2, 4, 6, 511, 272, 1, 0, 7]
 
 HOSTILE_PATHS = ["", "a", "//", "/a//b", "/a/b/", "/%C3%A9", "/a%2Fb",
